@@ -59,6 +59,11 @@ def build_frame(fs):
   raw = _build_frame(fs)
   if fs.get("pad") and fs["kind"] in ("udp", "tcp", "icmp", "ipother"):
     raw += b"\0" * fs["pad"]          # Ethernet padding after the datagram
+  if fs.get("tag8023"):
+    # an 802.1Q-tagged 802.3 frame as it is on the wire: the tag sits
+    # between the addresses and the length field
+    vid, pcp = fs["tag8023"]
+    raw = raw[:12] + struct.pack("!HH", 0x8100, (pcp << 13) | vid) + raw[12:]
   if fs.get("vlan") and fs.get("vlan2"):
     # a second 802.1Q tag under the first (the 12-tuple only looks at the
     # outer one: dl_type is then 0x8100)
